@@ -150,7 +150,7 @@ where
     Ok(())
 }
 
-pub const OPS: [&str; 33] = [
+pub const OPS: [&str; 38] = [
     "glwe_keyswitch",
     "glwe_keyswitch_assign",
     "glwe_automorphism",
@@ -184,6 +184,11 @@ pub const OPS: [&str; 33] = [
     "glwe_from_lwe",
     "lwe_from_glwe",
     "lwe_keyswitch",
+    "glwe_encrypt_sk",
+    "glwe_encrypt_pk",
+    "glwe_decrypt",
+    "lwe_encrypt_sk",
+    "lwe_decrypt",
 ];
 
 fn raw(g: &GLWE<Vec<u8>>) -> Vec<i64> {
@@ -614,6 +619,92 @@ where
                 }
             }
         }
+        33..=37 => {
+            // encryption / decryption with exactly their own queries (radix of the key inside the backend domain)
+            use crate::c03::lwe_secret;
+            use poulpy_core::layouts::{Base2K, Degree, GLWELayout, GLWEPlaintext, GLWEPublicKey, GLWEPublicKeyPreparedFactory, GLWESecretPreparedFactory, LWE, LWELayout, LWEPlaintext, Rank, TorusPrecision};
+            use poulpy_core::{EncryptionLayout, GLWEDecrypt, GLWEEncryptPk, GLWEEncryptSk, GLWEPublicKeyGenerate, LWEDecrypt, LWEEncryptSk};
+            use poulpy_hal::api::ScratchOwnedBorrow;
+            let b = c.kb as usize;
+            let size = (c.rsize as usize).clamp(1, 6);
+            let k = size * b - (c.krem as usize % b);
+            let ni = poulpy_hal::layouts::NoiseInfos::new(k, 3.2, 19.2).unwrap();
+            let rank = Rank(ro as u32);
+            let lay = GLWELayout { n: Degree(n as u32), base2k: Base2K(b as u32), k: TorusPrecision(k as u32), rank };
+            let enc = EncryptionLayout::new(lay, ni).unwrap();
+            let skg = secret(n, ro, c.dist, c.seed, 1);
+            let mut skp = m.glwe_secret_prepared_alloc(rank);
+            m.glwe_secret_prepare(&mut skp, &skg);
+            let mut pt = GLWEPlaintext::alloc(Degree(n as u32), Base2K(b as u32), TorusPrecision(k as u32));
+            for (j, l) in gen_column(VClass::Uniform, b, n, pt.data.size(), c.seed ^ 0x55).iter().enumerate() {
+                pt.data.at_mut(0, j).copy_from_slice(l);
+            }
+            match op {
+                33 => {
+                    let bytes = m.glwe_encrypt_sk_tmp_bytes(&lay);
+                    three_runs::<B, _>(c, opn, bytes, |s, fill| {
+                        let mut ct = filled(n, Lay { b, size }, ro, VClass::Uniform, fill);
+                        m.glwe_encrypt_sk(&mut ct, &pt, &skp, &enc, &mut Source::new(seed32(c.seed, 3)), &mut Source::new(seed32(c.seed, 4)), s);
+                        raw(&ct)
+                    })
+                }
+                34 => {
+                    let mut pk = GLWEPublicKey::alloc_from_infos(&lay);
+                    m.glwe_public_key_generate(&mut pk, &skp, &enc, &mut Source::new(seed32(c.seed, 5)), &mut Source::new(seed32(c.seed, 6)));
+                    let mut pkp = m.glwe_public_key_prepared_alloc_from_infos(&lay);
+                    m.glwe_public_key_prepare(&mut pkp, &pk);
+                    let bytes = m.glwe_encrypt_pk_tmp_bytes(&lay);
+                    three_runs::<B, _>(c, opn, bytes, |s, fill| {
+                        let mut ct = filled(n, Lay { b, size }, ro, VClass::Uniform, fill);
+                        m.glwe_encrypt_pk(&mut ct, &pt, &pkp, &enc, &mut Source::new(seed32(c.seed, 3)), &mut Source::new(seed32(c.seed, 4)), s);
+                        raw(&ct)
+                    })
+                }
+                35 => {
+                    let mut ct = filled(n, Lay { b, size }, ro, VClass::Uniform, 1);
+                    m.glwe_encrypt_sk(&mut ct, &pt, &skp, &enc, &mut Source::new(seed32(c.seed, 3)), &mut Source::new(seed32(c.seed, 4)), big.borrow());
+                    let bytes = m.glwe_decrypt_tmp_bytes(&lay);
+                    three_runs::<B, _>(c, opn, bytes, |s, fill| {
+                        let mut out = GLWEPlaintext::alloc(Degree(n as u32), Base2K(b as u32), TorusPrecision(k as u32));
+                        for (j, l) in gen_column(VClass::Uniform, b, n, out.data.size(), fill).iter().enumerate() {
+                            out.data.at_mut(0, j).copy_from_slice(l);
+                        }
+                        m.glwe_decrypt(&ct, &mut out, &skp, s);
+                        out.data.raw().to_vec()
+                    })
+                }
+                _ => {
+                    let n1 = (c.n_lwe as usize).clamp(1, n);
+                    let llay = LWELayout { n: Degree(n1 as u32), k: TorusPrecision(k as u32), base2k: Base2K(b as u32) };
+                    let lenc = EncryptionLayout::new(llay, ni).unwrap();
+                    let sk1 = lwe_secret(n1, c.dist, c.seed, 1);
+                    let mut lpt = LWEPlaintext::alloc(Base2K(b as u32), TorusPrecision(k as u32));
+                    for (j, l) in gen_column(VClass::Uniform, b, 1, size, c.seed ^ 0x56).iter().enumerate() {
+                        lpt.data_mut().at_mut(0, j)[0] = l[0];
+                    }
+                    if op == 36 {
+                        let bytes = m.lwe_encrypt_sk_tmp_bytes(&llay);
+                        three_runs::<B, _>(c, opn, bytes, |s, fill| {
+                            let mut ct = crate::c03::arbitrary_lwe(n1, Lay { b, size }, VClass::Uniform, fill);
+                            m.lwe_encrypt_sk(&mut ct, &lpt, &sk1, &lenc, &mut Source::new(seed32(c.seed, 3)), &mut Source::new(seed32(c.seed, 4)), s);
+                            ct.data().raw().to_vec()
+                        })
+                    } else {
+                        let mut ct = LWE::alloc_from_infos(&llay);
+                        m.lwe_encrypt_sk(&mut ct, &lpt, &sk1, &lenc, &mut Source::new(seed32(c.seed, 3)), &mut Source::new(seed32(c.seed, 4)), big.borrow());
+                        let bytes = m.lwe_decrypt_tmp_bytes(&llay);
+                        three_runs::<B, _>(c, opn, bytes, |s, fill| {
+                            let mut out = LWEPlaintext::alloc(Base2K(b as u32), TorusPrecision(k as u32));
+                            for j in 0..size {
+                                out.data_mut().at_mut(0, j)[0] = (fill as i64 + j as i64) % 7;
+                            }
+                            m.lwe_decrypt(&ct, &mut out, &sk1, s);
+                            (0..size).map(|j| out.data().at(0, j)[0]).collect()
+                        })
+                    }
+                }
+            }
+        }
         _ => {
             let r_ = ro;
             let a = filled(n, al, r_, cls, c.seed ^ 0xA);
@@ -688,7 +779,7 @@ pub fn run_all_c10(ctx: &Ctx) {
     ctx.run_sub("core_cross_backend", t.pick(4_000, 80_000), 64, crate::c03::strategy, test_xb);
 }
 
-pub const RULE_C10: &str = "scheme level: cases = (one of 33 operations of poulpy-core and of the CMux family, generated gadget shapes / ranks / radices / sizes as in C03-C05, parameters inside the FFT64 exactness domain); keys are encrypted, prepared and the operation executed from identical seeds on FFT64Ref, FFT64Avx, NTT120Ref and NTT120Avx; the result ciphertexts must be identical byte for byte. non-trivial = every case that runs on all four backends.";
+pub const RULE_C10: &str = "scheme level: cases = (one of 38 operations of poulpy-core and of the CMux family, generated gadget shapes / ranks / radices / sizes as in C03-C05, parameters inside the FFT64 exactness domain); keys are encrypted, prepared and the operation executed from identical seeds on FFT64Ref, FFT64Avx, NTT120Ref and NTT120Avx; the result ciphertexts must be identical byte for byte. non-trivial = every case that runs on all four backends.";
 
 pub fn run_all(ctx: &Ctx) {
     let t = ctx.tier;
@@ -701,7 +792,7 @@ pub fn run_all_c11(ctx: &Ctx) {
     ctx.run_sub("core_two_fills", t.pick(6_000, 120_000), 64, crate::c03::strategy, test);
 }
 
-pub const RULE_C11: &str = "core level: cases = (backend, one of 33 operations of poulpy-core and of the CMux family, generated gadget shapes / ranks / radices / sizes as in C03-C05); each call runs twice with ample scratch, from two different garbage fills of the scratch window and of every byte of the destination; the declared outputs must be identical and the guard regions intact. non-trivial = every executed case.";
+pub const RULE_C11: &str = "core level: cases = (backend, one of 38 operations of poulpy-core and of the CMux family, generated gadget shapes / ranks / radices / sizes as in C03-C05); each call runs twice with ample scratch, from two different garbage fills of the scratch window and of every byte of the destination; the declared outputs must be identical and the guard regions intact. non-trivial = every executed case.";
 
 pub fn replay(ctx: &Ctx, sub: &str, case: &serde_json::Value) -> i32 {
     if ctx.property == "C11" {
